@@ -196,6 +196,10 @@ def build(rng, seq=None, nres=None):
             numbers[j] = numbers[k0] + (j - k0 - n)
     items, truth = S.assemble([{"id": rng.choice(["A", "A", "B", "Z"]), "numbers": numbers, "icodes": icodes,
                                 "residues": pep}])
+    # unequal C-O bonds in some carboxyl groups (atomic-resolution geometry of protonated acids)
+    from ..gen import workload
+    out = {"items": items, "truth": truth}
+    workload.apply_carboxyl_asymmetry(out, rng, 0.5)
     return pdbfmt.to_text(items), items, truth
 
 
